@@ -384,6 +384,7 @@ def run(prog, ctx):
     # ------------------------------------------------------------------ D7, D8
     check_no_accumulator_alias(prog, ctx)
     check_no_stop_after_refine(prog, ctx)
+    check_scheme_follows_lmax(prog, ctx)
 
 
 def check_public_quadrature(prog, ctx):
@@ -518,3 +519,35 @@ def check_no_stop_after_refine(prog, ctx):
                   "after a refinement the driver cannot stop before the refined structure has been evaluated",
                   "continue_adaptive_refinement can leave the loop after self.refine(...) without evaluating the refined structure (break at line %s): "
                   "the reported value belongs to the previous refinement, scheme and points to the new one" % line)
+
+
+def check_scheme_follows_lmax(prog, ctx):
+    """D9: the scheme is computed from the maximum level it is stored next to.  In every method of a strategy class that both stores
+    self.lmax and stores self.scheme = ...getCombiScheme(... self.lmax ...), no path leads from a store of self.lmax to the end of the
+    method without a scheme computation after it (the scheme would describe the previous maximum level)."""
+    n = 0
+    for fi in sorted(prog.functions.values(), key=lambda f: f.qual):
+        if fi.cls is None or fi.self_name is None:
+            continue
+        lst = [s_ for s_ in R.self_stores(fi) if s_.attr == "lmax"]
+        sch = [s_ for s_ in R.self_stores(fi) if s_.attr == "scheme" and s_.kind == "plain" and s_.value is not None
+               and any(isinstance(x, ast.Call) and isinstance(x.func, ast.Attribute) and x.func.attr == "getCombiScheme"
+                       and any(isinstance(y, ast.Attribute) and y.attr == "lmax" and R.attr_chain(y.value) == [fi.self_name]
+                               for a_ in list(x.args) + [k.value for k in x.keywords] for y in ast.walk(a_))
+                       for x in ast.walk(s_.value))]
+        if not lst or not sch:
+            continue
+        ctx.touch(fi)
+        c = cfg_of(fi)
+        sn = [c.node_of(s_.stmt) for s_ in sch]
+        for k, l_ in enumerate(lst):
+            ln = c.node_of(l_.stmt)
+            if ln is None or any(x is None for x in sn):
+                raise AnalysisError("C05.D9: statement of %s not in the flow graph" % fi.qual)
+            n += 1
+            ok = c.must_pass_through(ln, [c.exit], sn)
+            ctx.check(ok, "C05.D9", R.key_of(fi, "scheme-after-lmax#%d" % k), fi.loc(l_.stmt),
+                      "after self.lmax changes the scheme is computed again before the method ends",
+                      "`%s` changes self.lmax, and the method can end without computing self.scheme from it afterwards: the scheme "
+                      "(and every component grid taken from it) describes the previous maximum level" % src(l_.stmt))
+    ctx.floor("C05.D9", n, 3, "stores of self.lmax in methods that compute the scheme from it")
